@@ -771,13 +771,12 @@ theorem enter_live (p : Params) (s : St) :
 
 theorem initLive_tstate (both : Bool) (l : Live) (t : Nat) :
     (initLive m both l).tstate t =
-      if t < m.nT then (if both && decide ((m.task t).prog ≥ 1) then TS.finished else TS.none)
-      else l.tstate t := by
+      (if both && decide ((m.task t).prog ≥ 1) then TS.finished else TS.none) := by
   simp [initLive]
 
-theorem initLive_none (both : Bool) (l : Live) (t : Nat) (ht : t < m.nT) (hex : ¬ exempt m t) :
+theorem initLive_none (both : Bool) (l : Live) (t : Nat) (_ht : t < m.nT) (hex : ¬ exempt m t) :
     (initLive m both l).tstate t = .none := by
-  rw [initLive_tstate, if_pos ht]
+  rw [initLive_tstate]
   unfold exempt at hex
   simp [hex]
 
@@ -823,7 +822,7 @@ theorem initProject_exempt (s : St) (t : Nat) (ht : t < m.nT) (hex : exempt m t)
   have h0 : (pert m 0 { initLive m true s.live with cpl := 0 }).tstate t = .finished := by
     rw [pert_tstate]
     show (initLive m true s.live).tstate t = .finished
-    rw [initLive_tstate, if_pos ht]
+    rw [initLive_tstate]
     unfold exempt at hex
     simp [hex]
   rw [h0]; simp
